@@ -137,6 +137,56 @@ theorem bulk_key_not_closed :
       (fun doc => !closedB doc && dangling doc == [schemaRef c!"FooBar", schemaRef c!"FooBar", schemaRef c!"FooBar"]) = true := by
   decide
 
+/-! ### `gen_routes` → `openapi_bulk` for any number of models, one upsert batch per routes file
+
+`GoodEntry e` (defined in `Proofs/OpenApi.lean`) is: `'/' ∉ name`, ``'`' ∉ name``, `name ≠ ""`, `':' ∉ route`, `'/' ∉ id`
+(class names / column names are identifiers, route prefixes are plain).  `bottleKeys e = [route, route/:id]` are the
+decorator paths, `pathKeys e = [route, route/{id}]` the OpenAPI paths: both families pairwise distinct. -/
+
+/-- **C16 (c) for `openapi_bulk`:** the routes `gen_routes` writes for `es`, read back by `openapi_bulk`, yield a
+    document (no exception) whose operations are exactly the requested ones, in order. -/
+theorem bulk_ops_exact (app : Str) (ts : List Table) (es : List Entry) (hgood : ∀ e ∈ es, GoodEntry e)
+    (hb : (es.flatMap bottleKeys).Nodup) (hp : (es.flatMap pathKeys).Nodup) :
+    ∃ doc, bulk app ts (es.flatMap (genRoutes app)) = .ok doc ∧ allOps doc = es.flatMap requested := by
+  refine ⟨_, by unfold bulk; rw [bulkDoc_generated' app ts es hgood hb hp]; rfl, ?_⟩
+  unfold allOps; rw [pathsOf_toJ]; exact opsOfPaths_flatMap es
+
+/-- **C16 (d) for `openapi_bulk`:** every `{pk}` of a path of that document is declared in the item's `parameters`. -/
+theorem bulk_params_declared (app : Str) (ts : List Table) (es : List Entry) (hgood : ∀ e ∈ es, GoodEntry e)
+    (hb : (es.flatMap bottleKeys).Nodup) (hp : (es.flatMap pathKeys).Nodup) (hbr : ∀ e ∈ es, '{' ∉ e.route ∧ '}' ∉ e.id) :
+    ∃ doc, bulk app ts (es.flatMap (genRoutes app)) = .ok doc ∧ ParamsDeclared doc := by
+  refine ⟨_, by unfold bulk; rw [bulkDoc_generated' app ts es hgood hb hp]; rfl, ?_⟩
+  unfold ParamsDeclared; rw [pathsOf_toJ]; exact pinv_bulkPathItems es hbr
+
+/-- **C16 (f) routes generated for the models, fed back to the generator, describe those same models:** the `paths`
+    read back are, item by item and up to key order inside the dicts (`J.eqv`), the path items `emit.openapi` writes for
+    the same (name, model, route, id, crud) tuples that carry an operation; and `components.requestBodies` agree likewise.
+    (`emit.openapi` additionally writes a parameter-only item at `route/{id}` when neither `R` nor `D` is requested.) -/
+theorem bulk_roundtrip (app : Str) (ts : List Table) (es : List Entry) (hgood : ∀ e ∈ es, GoodEntry e)
+    (hb : (es.flatMap bottleKeys).Nodup) (hp : (es.flatMap pathKeys).Nodup) (hok : ∀ e ∈ es, crudOK e.crud = true) :
+    ∃ doc, bulk app ts (es.flatMap (genRoutes app)) = .ok doc ∧
+      dictEqv (pathsOf doc) (withOps (pathsOf (openapi es))) = true ∧
+      dictEqv (bodiesOfDoc doc) (bodiesOfDoc (openapi es)) = true := by
+  refine ⟨_, by unfold bulk; rw [bulkDoc_generated' app ts es hgood hb hp]; rfl, ?_, ?_⟩
+  · unfold openapi
+    rw [pathsOf_toJ, pathsOf_toJ]
+    have := paths_foldl es init (by simpa [init, keys] using hp) hok
+    simp only [init, List.nil_append] at this
+    unfold openapiDoc
+    simp only [init, this]
+    exact dictEqv_flatMap es
+  · unfold openapi
+    rw [bodiesOfDoc_toJ, bodiesOfDoc_toJ]
+    exact bodies_foldl es ([], []) init rfl
+
+/-- non-vacuity: three models, two of them with Create, a name containing "Body", one delete-only model -/
+example : ∃ doc, bulk c!"app" [] (([
+      ⟨c!"FooBar", [], c!"/api/foo_bar", c!"id", c!"CRD"⟩, ⟨c!"BodyPart", [], c!"/v2/body_part", c!"name", c!"CR"⟩,
+      ⟨c!"Baz", [], c!"/baz", c!"k", c!"D"⟩] : List Entry).flatMap (genRoutes c!"app")) = .ok doc ∧
+    allOps doc = [(c!"/api/foo_bar", c!"post"), (c!"/api/foo_bar/{id}", c!"get"), (c!"/api/foo_bar/{id}", c!"delete"),
+      (c!"/v2/body_part", c!"post"), (c!"/v2/body_part/{name}", c!"get"), (c!"/baz/{k}", c!"delete")] :=
+  bulk_ops_exact _ _ _ (by decide) (by decide) (by decide)
+
 /-- **Negation on a witness (known finding C16-upsert-appended-batch).**  Two models upserted into one routes file:
     only the batch that created the file is visible to `openapi_bulk`; the operations requested for the second model
     (`Bar`, "CR") are absent from the document. -/
